@@ -10,6 +10,8 @@ What is mirrored here: initial-state decoding, bit flips, spin-block bookkeeping
 qubit placement of the emitted operations, and the Cooley–Tukey recursion of `ffft`.
 Import-free.
 -/
+import OFV.Model.C11
+
 namespace OFV
 namespace Model
 namespace C14
@@ -59,6 +61,20 @@ def givensOps (n : Nat) (desc : List (List (Option (Nat × Nat × Nat)))) : List
     | none => [PrimOp.x (n - 1)]
     | some (i, j, k) => [PrimOp.ryxxy i j k, PrimOp.zpow j k]
 
+/-- the qubit pairs `(j-1, j)` the Givens rotations of iteration `k` of `givens_decomposition_square`
+may act on (C11 schedule `squareLayer`: position `(i, j)` is zeroed by a rotation of columns `j-1, j`;
+rotations of already-zero entries are skipped by the code, so a real layer is a sub-list) -/
+def slaterLayerPairs (n k : Nat) : List (Nat × Nat) :=
+  (C11.squareLayer n k).map fun ij => (ij.2 - 1, ij.2)
+
+def slaterSchedulePairs (n : Nat) : List (List (Nat × Nat)) :=
+  (List.range (C11.squareDepth n)).map (slaterLayerPairs n)
+
+/-- a circuit description (as handed to `_ops_from_givens_rotations_circuit_description` by
+`_slater_basis_change`) whose every layer is drawn from one iteration of the C11 schedule -/
+def FromSquareSchedule (n : Nat) (desc : List (List (Option (Nat × Nat × Nat)))) : Prop :=
+  ∀ layer ∈ desc, ∃ k, ∀ op ∈ layer, ∃ a b p, op = some (a, b, p) ∧ (a, b) ∈ slaterLayerPairs n k
+
 /-! ### ffft -/
 
 /-- smallest factor `≥ d` of `n` (trial division, `fuel` steps) -/
@@ -102,6 +118,28 @@ def ffftRec (start n : Nat) (factors : List Nat) : List FfftOp :=
           ((List.range (ny - 1)).map fun y' => FfftOp.twiddle (x * (y' + 1)) n (start + ny * x + y' + 1))
           ++ (if ny == 2 then [FfftOp.f0 (start + ny * x)] else [FfftOp.prime (start + ny * x) ny]))
     ++ [FfftOp.perm start permutation false]
+
+/-- product of the factor list -/
+def listProd (l : List Nat) : Nat := l.foldr (· * ·) 1
+
+/-- Cooley–Tukey index recursion of `_ffft`, read off the emitted operations: the transformed
+`a†_k` has the coefficient `n^{-1/2} e^{-2πi·ctExp factors k j / n}` on `a†_j`, `n = ∏ factors`.
+For `n = ny·nx` (`ny` the first factor): `_permute` sends position `i` to `(i % ny)·nx + i / ny`
+(input index `j = x'·ny + y` lands in block `y`, slot `x'`), the `ny` sub-transforms of size `nx` act on
+the blocks (exponent unit `1/nx = ny/n`), the inverse permutation puts `(y, kx)` at `ny·kx + y`,
+`_TwiddleGate(kx·y, n)` multiplies by `e^{-2πi kx y / n}`, the `nx` transforms of size `ny` act on
+`ny·kx … ny·kx + ny − 1` (unit `1/ny = nx/n`), and the final `_permute` sends `ny·kx + ky` to
+`k = ky·nx + kx`. -/
+def ctExp : List Nat → Nat → Nat → Nat
+  | [], _, _ => 0
+  | [_], k, j => k * j
+  | ny :: f :: fx, k, j =>
+    let nx := listProd (f :: fx)
+    ny * ctExp (f :: fx) (k % nx) (j / ny) + (k % nx) * (j % ny) + nx * ((k / nx) * (j % ny))
+
+/-- exponent table of `ffft` on `n` modes -/
+def ffftExpTable (n : Nat) : List (List Nat) :=
+  (List.range n).map fun k => (List.range n).map fun j => ctExp (primeFactors n n) k j % n
 
 /-- `ffft(qubits)` for `n ≥ 1` (`n = 1`: no operations) -/
 def ffftOps (n : Nat) : List FfftOp :=
